@@ -192,16 +192,23 @@ theorem instrActions_rt (ty ln kp : Nat) (as : List V) (encs : List Bytes)
   have hty16 : ty < 65536 := by rcases hty with h | h | h <;> (rw [h]; decide)
   have hbl : bs.length = ln := by
     simp only [bs, List.length_append, be16_length, zeros_length]; omega
-  refine ⟨?_, ?_, ?_⟩
-  · simp only [v, Instruction.marshalM, V.kind, InstrActions.marshalM, InstrHeader.bytes, Res.bind_ok, hml,
-      makeCopy_zeros, bs, List.append_assoc]
-    rfl
-  · simp only [v, Instruction.lenM, V.kind, InstrActions.lenM, hll, Res.bind_ok]
+  have hlenM : InstrActions.lenM v = .ok (UInt16.ofNat ln, v) := by
+    simp only [v, InstrActions.lenM, hll, Res.bind_ok]
     congr 2
     apply ofNat_lit
-    rw [UInt16.toNat_add, sum16_toNat _ (by rw [hsum]; omega), hsum, hbl]
+    rw [UInt16.toNat_add, sum16_toNat _ (by rw [hsum]; omega), hsum]
     have : (8 : UInt16).toNat = 8 := rfl
     rw [this]; omega
+  refine ⟨?_, ?_, ?_⟩
+  · -- (the encoder first stores Len() in the header's Length: the same number here)
+    have hu : V.u16 (UInt16.ofNat ln) = .num ln := u16_n16 ln hlt
+    simp only [v, Instruction.marshalM, V.kind]
+    unfold InstrActions.marshalM
+    rw [hlenM]
+    simp only [v, Res.bind_ok, hu, InstrHeader.bytes, hml, makeCopy_zeros, bs, List.append_assoc, Bool.false_eq_true,
+      if_false]
+  · simp only [v, Instruction.lenM, V.kind]
+    rw [hlenM, hbl]
   · intro data tail hd hb
     have hlen := Slice.len_ge_of_bytes data _ _ hb
     rw [hbl] at hlen
